@@ -53,6 +53,22 @@ Definition sweep (rm : rounding) (N : Z) : bool :=
 Lemma sweep_ceil : sweep RCeil 2500 = true.
 Proof. vm_cast_no_check (eq_refl true). Qed.
 
+Lemma grid_on_time_spec rm dur tsc startS atoMS N :
+  grid_on_time rm dur tsc startS atoMS N = true ->
+  forall n, 0 <= n < N -> on_time_b rm ((n + 1) * dur + startS * tsc) tsc atoMS = true.
+Proof.
+  intros H n Hn. unfold grid_on_time in H. apply (forallb_seqZ _ _ _ H). rewrite Z2Nat.id by lia. lia.
+Qed.
+
+Lemma sweep_spec rm N : sweep rm N = true ->
+  forall dur tsc startS atoMS, In (dur, tsc) bundled_grids -> In startS [0; 1758000000] -> In atoMS [0; 1000; 1500] ->
+  grid_on_time rm dur tsc startS atoMS N = true.
+Proof.
+  intros H dur tsc startS atoMS Hg Hs Ha. unfold sweep in H. rewrite forallb_forall in H.
+  specialize (H _ Hg). rewrite forallb_forall in H. specialize (H _ Hs).
+  rewrite forallb_forall in H. specialize (H _ Ha). exact H.
+Qed.
+
 (** Bounded statement (the bound is part of it): on the grids of the bundled assets, for streams
     that started at the epoch or in September 2025, with an availability time offset of 0, 1
     or 1.5 s, the first 2500 availability times computed by the code are on time. *)
@@ -62,10 +78,8 @@ Theorem ceil_on_time_bounded : forall dur tsc startS atoMS n,
   on_time_b RCeil ((n + 1) * dur + startS * tsc) tsc atoMS = true.
 Proof.
   intros dur tsc startS atoMS n Hg Hs Ha Hn.
-  pose proof sweep_ceil as H. unfold sweep in H. rewrite forallb_forall in H.
-  specialize (H _ Hg). rewrite forallb_forall in H. specialize (H _ Hs).
-  rewrite forallb_forall in H. specialize (H _ Ha). cbn [fst snd] in H.
-  unfold grid_on_time in H. apply (forallb_seqZ _ _ _ H). rewrite Z2Nat.id by lia. lia.
+  exact (grid_on_time_spec RCeil dur tsc startS atoMS 2500
+           (sweep_spec RCeil 2500 sweep_ceil dur tsc startS atoMS Hg Hs Ha) n Hn).
 Qed.
 
 (** The truncation fails the same sweep at once. *)
